@@ -373,6 +373,37 @@ fn size_boundaries(i: u64, rep: &mut Report) {
         }
         judge(d, &format!("stored resend limit={}", limit), rep);
     }
+    // (5) the automatic alias machinery around the encoding boundaries: a PUBLISH whose plain size is just below the
+    // point where Remaining Length (127/128, 16383/16384) or Property Length needs one more byte grows by more than the
+    // three bytes of the Topic Alias property when the library adds one
+    for base in [118usize, 16374] {
+        for extra in 0..=16usize {
+            for delta in 0..=6u32 {
+                for (qos, props_pad) in [(0u8, 0usize), (1, 0), (0, 118), (1, 118)] {
+                    if base > 1000 && props_pad > 0 {
+                        continue;
+                    }
+                    let mut props = Vec::new();
+                    if props_pad > 0 {
+                        // property section at props_pad + extra/2 bytes: around its own 127/128 boundary
+                        props.push(Prop { id: 38, val: PVal::Pair(b"k".to_vec(), vec![b'v'; props_pad + extra / 2 - 6]) });
+                    }
+                    let payload_len = if props_pad > 0 { 1 } else { base + extra - 8 };
+                    let p0 = Pkt::Publish { ver, dup: false, qos, retain: false, topic: b"t/u".to_vec(), id: if qos > 0 { Some(1) } else { None }, props: props.clone(), payload: vec![b'z'; payload_len] };
+                    let plain = rc::encode(&p0, idw).len() as u32;
+                    let mut d = mk(plain + delta, 2, true, false);
+                    for _ in 0..2 {
+                        let id = if qos > 0 { d.acquire() } else { None };
+                        if qos > 0 && id.is_none() {
+                            break;
+                        }
+                        d.send(Pkt::Publish { ver, dup: false, qos, retain: false, topic: b"t/u".to_vec(), id, props: props.clone(), payload: vec![b'z'; payload_len] });
+                    }
+                    judge(d, &format!("auto-map at encoding boundary plain={} limit=plain+{} qos={} props_pad={}", plain, delta, qos, props_pad), rep);
+                }
+            }
+        }
+    }
     // (4) inbound: frames of size limit-1 / limit / limit+1 against the locally announced maximum
     for delta in [-1i64, 0, 1] {
         let p = Pkt::Publish { ver, dup: false, qos: 0, retain: false, topic: b"a".to_vec(), id: None, props: vec![], payload: vec![b'q'; 20] };
